@@ -189,7 +189,7 @@ CHECKS["C19"] = dict(
     min_nontrivial=dict(quick=100000, thorough=1500000),
     max_inconclusive=0.02,
     require_obs=["graphs_peeled", "trees_returned", "tree_nodes_checked", "trees_laid_out", "tree_node_pairs_checked", "component_extractions", "graphs_planarised",
-                 "input_route_crossings", "result_edge_pairs_checked", "former_neighbour_pairs_checked"],
+                 "input_route_crossings", "routes_with_collinear_interior_points_cases", "result_edge_pairs_checked", "former_neighbour_pairs_checked"],
     assumptions=["symmetric layout is called with rankSep >= the largest node extent of the tree (rankSep is a centre-to-centre rank distance)",
                  "planarise inputs keep routes clear of other nodes' boxes and never fold back on themselves; coordinates are multiples of 10 (the planariser merges points closer than 0.5)",
                  "a pure tree input leaves a core of at most one node (the documented root; the double-centre case leaves an empty core)"],
@@ -211,7 +211,8 @@ CHECKS["C15"] = dict(
     ignore_functional=True,
     rule=("every generated case of every monitor harness (all five libraries: build, use, edit, tear down) re-run in an AddressSanitizer + UndefinedBehaviourSanitizer build with a "
           "LeakSanitizer check after EVERY case, assertions delivered as exceptions, a watchdog per case; plus API-lifecycle histories aimed at ownership: shapes with pins in use "
-          "deleted, connectors and junctions deleted inside pending transactions, moves followed by deletes, routers destroyed with queued actions; and the repository's own test programs run in the same sanitizer build. "
+          "deleted, connectors and junctions deleted inside pending transactions, moves followed by deletes, routers destroyed with queued actions; libcola layouts that are handed rectangles, compound constraints (the same pointer listed more than once), "
+          "cluster hierarchies and unsatisfiable-constraint lists and either free them themselves (freeAssociatedObjects) or leave that to the caller, majorization with those lists and overlap avoidance together; and the repository's own test programs run in the same sanitizer build. "
           "non-trivial = as defined by the respective harness (lifecycle histories: an object was deleted while another still referred to it, or the router was destroyed with queued actions)"),
     workloads=[
         _san("c01_vpsc", "instances", 10000, 200000), _san("c01_vpsc", "histories", 4000, 50000), _san("c01_vpsc", "opt", 3000, 60000), _san("c01_vpsc", "resolve", 1500, 30000),
@@ -224,7 +225,7 @@ CHECKS["C15"] = dict(
         _san("c14_hola", "random", 160, 3000, watchdog=300),
         _san("c18_dialect", "subset", 3000, 50000), _san("c18_dialect", "roundtrip", 4000, 50000),
         _san("c19_decomp", "peel", 8000, 150000), _san("c19_decomp", "planarise", 5000, 100000),
-        _san("c15_api", "avoid", 5000, 80000, watchdog=60), _san("c15_api", "vpsc", 8000, 150000, watchdog=30), _san("c15_api", "regress", 3, 3, fixed=True, watchdog=60),
+        _san("c15_api", "avoid", 5000, 80000, watchdog=60), _san("c15_api", "vpsc", 8000, 150000, watchdog=30), _san("c15_api", "cola", 20000, 200000, watchdog=60), _san("c15_api", "regress", 3, 3, fixed=True, watchdog=60),
         # the repository's own 178 test programs compiled against the sanitizer build (quick: the first 24 of the sorted list)
         _san("repo_tests.py", "repotests", 24, 178, fixed=True, watchdog=300),
     ],
@@ -276,7 +277,8 @@ MANIFEST_TEXT["C20"] = dict(
 CHECKS["C03"] = dict(
     level="exploration",
     rule=("cases = scenes of interior-disjoint convex shapes with integer coordinates in three regimes (separated / touching cells sharing edges and corners / dense), "
-          "1-40 shapes (rectangles, triangles, diamonds, convex k-gons), 1-12 connectors with free, on-boundary and centre-pin ends, both routing modes, "
+          "1-40 shapes (rectangles, triangles, diamonds, convex k-gons), 1-12 connectors with free, on-boundary and centre-pin ends (orthogonal scenes: ends on the border of a shape's bounding box, "
+          "where the shape stays an obstacle for that connector), both routing modes, "
           "shapeBufferDistance {0,2,5}, penalty vectors, nudging distances and options; every displayRoute() is judged by exact/eps-inset convex clipping. "
           "non-trivial = the straight segment between some connector's attachments is blocked by a shape"),
     workloads=[
@@ -284,7 +286,7 @@ CHECKS["C03"] = dict(
     ],
     min_nontrivial=dict(quick=3000, thorough=30000),
     max_inconclusive=0.03,
-    require_obs=["routes_checked", "routes_with_blocked_straight_line", "buffered_routes_checked"],
+    require_obs=["routes_checked", "routes_with_blocked_straight_line", "buffered_routes_checked", "orthogonal_endpoints_on_a_shape_border"],
     assumptions=["a shape is exempt for a connector already when an endpoint lies on its border (more lenient than the router's strict-interior rule)",
                  "orthogonal mode: free endpoints are generated outside shape bounding boxes (the orthogonal router works on bounding boxes)",
                  "an invalid route is accepted as the documented straight-line fallback only when no path with clearance 1/4 exists (own visibility graph on inflated shapes)",
@@ -316,7 +318,8 @@ CHECKS["C05"] = dict(
     level="exploration",
     rule=("ortho: scenes of 1-10 separated rectangles (integer, many shared coordinates), orthogonal connectors between free points, segmentPenalty {1,10,50,200}; "
           "(1) endpoints visible in all directions, 1-3 connectors: raw route cost must equal the optimum of a grid Dijkstra over (cell, heading); (2) one connector with "
-          "direction masks: axis-parallel, valid, masks honoured, compared with the grid optimum. bends: the complete table of Avoid::bends() (8 relative positions x 4 x 4 "
+          "direction masks: axis-parallel, valid, masks honoured, compared with the grid optimum; (3) as (1) plus 1-2 unjudged bystander connectors whose direction-restricted ends sit on the lines the judged "
+          "connectors would like to use (connectors do not interact: no crossing or shared-path penalty). bends: the complete table of Avoid::bends() (8 relative positions x 4 x 4 "
           "directions x 3 distances) against BFS minimum bend counts. non-trivial = route with >=2 bends or a detour longer than the Manhattan distance / table entry with true minimum >=1"),
     workloads=[
         dict(harness="c03_route", mode="ortho", quick=40000, thorough=4000000, watchdog=120, san_thorough=6000),
@@ -324,7 +327,7 @@ CHECKS["C05"] = dict(
     ],
     min_nontrivial=dict(quick=3000, thorough=30000),
     max_inconclusive=0.02,
-    require_obs=["routes_judged", "routes_with_direction_masks", "table_entries"],
+    require_obs=["routes_judged", "routes_with_direction_masks", "table_entries", "bystander_connectors_with_direction_masks"],
     exhaustive_note="mode 'bends' enumerates the complete estimator table (384 entries); 'ortho' is sampled",
     assumptions=["the oracle applies libavoid's documented relaxation of direction masks for endpoints on the outermost scan position of the scene",
                  "a 180-degree reversal is priced as two bends (as libavoid does)"],
@@ -338,7 +341,8 @@ MANIFEST_TEXT["C05"] = dict(
 CHECKS["C06"] = dict(
     level="exploration",
     rule=("cases = histories on one live Router: initial scene (2-9 separated convex shapes, 1-4 connectors) followed by 1-12 transactions of 1-4 operations drawn from "
-          "move (relative / absolute incl. resize) / delete / add shape, move endpoint, add / delete connector and geometric no-ops; both routing modes, transactions on and "
+          "move (relative / absolute incl. resize) / delete / add shape, move endpoint, add / delete connector and geometric no-ops, and in some histories changes of the routing parameter "
+          "shapeBufferDistance between transactions (the fresh router gets the current value); both routing modes, transactions on and "
           "setTransactionUse(false), segmentPenalty 0 and >0; after every processTransaction a freshly built Router for the same final scene is the reference model. "
           "non-trivial = at least one route changed during the history; distinct = digest of the recorded operation history"),
     workloads=[
@@ -347,7 +351,7 @@ CHECKS["C06"] = dict(
     ],
     min_nontrivial=dict(quick=8000, thorough=50000),
     max_inconclusive=0.03,
-    require_obs=["transactions", "idle_transactions", "geometric_noop_transactions", "route_comparisons"],
+    require_obs=["transactions", "idle_transactions", "geometric_noop_transactions", "route_comparisons", "shape_buffer_distance_changes"],
     assumptions=["at most one operation per shape per transaction (in particular no add+delete of one shape, the documented precondition)",
                  "incremental cheaper than fresh is the fresh router's sub-optimality (C04/C05), counted, not judged here",
                  "a transaction holding only geometric no-ops may re-route to another equal-cost path; only an idle processTransaction() must leave routes bit-identical"],
@@ -362,11 +366,11 @@ CHECKS["C10"] = dict(
     level="exploration",
     rule=("cases = orthogonal scenes built to force sharing: 1-3 rows x 2-4 columns of rectangles with corridors of width {6,12,30,60}, 2-10 connectors between centre pins "
           "and free points, idealNudgingDistance {1,4,10,25}, segmentPenalty {10,50,200}; half of the cases with the default nudging options, half over all 2^4 combinations; "
-          "30% of scenes carry checkpoints. route() and displayRoute() are compared. non-trivial = two connectors without a common end are collinear in the raw routes"),
+          "30% of scenes carry checkpoints (random free points, and checkpoints placed straight out from a connector end beyond the half-way line of its z-bend, so that the first/last leg carries them). route() and displayRoute() are compared. non-trivial = two connectors without a common end are collinear in the raw routes"),
     workloads=[dict(harness="c10_nudge", mode="nudge", quick=30000, thorough=2000000, watchdog=120, san_thorough=6000)],
     min_nontrivial=dict(quick=5000, thorough=30000),
     max_inconclusive=0.08,
-    require_obs=["routes", "pairs_sharing_a_raw_stretch", "checkpoints_checked", "separated_pairs_checked", "two_sharer_pairs_checked"],
+    require_obs=["routes", "pairs_sharing_a_raw_stretch", "checkpoints_checked", "checkpoints_placed_straight_out_from_an_end", "separated_pairs_checked", "two_sharer_pairs_checked"],
     assumptions=["an overlapping stretch is excused when both segments are pinned (first/last segment of a route or carrying a checkpoint) or when the corridor alongside both full segments is narrower than (sharers-1) x distance",
                  "separation clauses are judged in checkpoint-free scenes only",
                  "minimum separation model: the library reduces the distance in ten equal steps; separated segments are therefore >= distance/10 apart, and with exactly two sharers >= min(distance, corridor) - 2 steps"],
@@ -418,15 +422,16 @@ MANIFEST_TEXT["C12"] = dict(
 CHECKS["C07"] = dict(
     level="exploration",
     rule=("cases = graphs (tree / random / disconnected / edgeless, n 1..60), initial placements (spread, crowded, coincident, collinear), compound constraints of every judged type "
-          "(separation incl. equality and between alignments, alignment with offsets and fixed position, boundary, distribution, multi-separation, fixed-relative; page boundaries are run "
-          "but not judged because they are documented as soft) in a 'satisfiable by construction' regime (derived from a hidden witness placement) and an arbitrary regime; drivers run(), "
-          "makeFeasible()+run(), runOnce()xk and ConstrainedMajorizationLayout::run(); overlap avoidance and neighbour stress on/off. Every constraint is re-evaluated by an independent "
+          "(separation incl. equality and between alignments, alignment with offsets and fixed position, boundary, distribution, multi-separation, fixed-relative; page boundaries, whose page is "
+          "soft, are judged by 'every member lies within the ACTUAL margins the constraint reports after run()') in a 'satisfiable by construction' regime (derived from a hidden witness placement) and an arbitrary regime; drivers run(), "
+          "makeFeasible()+run(), makeFeasible() alone, runOnce()xk and ConstrainedMajorizationLayout::run(); overlap avoidance and neighbour stress on/off; 'locked pair' scenes (two overlapping nodes tied by "
+          "an equality separation in one dimension and an alignment in the other, overlap avoidance on, judged straight after makeFeasible()). Every constraint is re-evaluated by an independent "
           "evaluator on the final rectangle centres; it is excused only if an UnsatisfiableConstraintInfo naming that compound constraint was delivered. "
           "non-trivial = some constraint is violated by the initial placement"),
     workloads=[dict(harness="c07_cola", mode="constraints", quick=40000, thorough=800000, watchdog=30, san_thorough=3000)],
     min_nontrivial=dict(quick=1500, thorough=30000),
     max_inconclusive=0.03,
-    require_obs=["constraints_checked.separation", "constraints_checked.alignment", "constraints_checked.boundary", "constraints_checked.fixed-relative", "layouts_reporting_unsatisfiable"],
+    require_obs=["constraints_checked.separation", "constraints_checked.alignment", "constraints_checked.boundary", "constraints_checked.fixed-relative", "layouts_reporting_unsatisfiable", "page_boundary_members_checked", "locked_pair_cases_satisfiable"],
     assumptions=["tolerance 1e-4 as stated; rectangle size tolerance relative to coordinate magnitude (1e-9)",
                  "AlignmentConstraint::fixPos and PageBoundaryConstraints are soft (weights) and are not judged"],
 )
@@ -438,12 +443,12 @@ MANIFEST_TEXT["C07"] = dict(
 CHECKS["C08"] = dict(
     level="exploration",
     rule=("cases = graphs n 1..35 with heavy initial overlap (crowded, coincident, nested rectangles), overlap avoidance on, makeFeasible() then run(); optional exemption groups; "
-          "optional hierarchy of rectangular clusters (1-3 clusters, nesting depth <=2, padding/margins) and user constraints derived from a non-overlapping witness placement. "
+          "optional hierarchy of rectangular clusters (1-3 clusters, chains up to three levels deep, intermediate clusters that hold only a child cluster and no node of their own, padding/margins) and user constraints derived from a non-overlapping witness placement. "
           "Judged only when nothing was reported unsatisfiable. non-trivial = at least one pair of rectangles overlaps initially"),
     workloads=[dict(harness="c07_cola", mode="overlap", quick=12000, thorough=600000, watchdog=120, san_thorough=2000)],
     min_nontrivial=dict(quick=1500, thorough=30000),
     max_inconclusive=0.03,
-    require_obs=["pairs_checked", "sibling_cluster_pairs_checked", "node_vs_foreign_cluster_checked"],
+    require_obs=["pairs_checked", "sibling_cluster_pairs_checked", "node_vs_foreign_cluster_checked", "clusters_holding_only_a_child_cluster"],
     assumptions=["overlap tolerance 1e-3 in both dimensions, as stated", "cluster member bounding boxes are computed by the harness from node rectangles only (padding/margins ignored: the weaker, stated requirement)"],
 )
 MANIFEST_TEXT["C08"] = dict(
@@ -459,13 +464,14 @@ CHECKS["C13"] = dict(
           "dragging nodes across the drawing and a resize. The monitor runs in the TestConvergence callback at EVERY iteration and once after run(). "
           "direct: topology::TopologyConstraints used as in the library's simple_bend/nodedragging tests, in a release (NDEBUG) build so that only the monitor judges: 3-10 rectangles, "
           "real-valued or on a 5-unit grid (abutting or gap 5: corners of different nodes share coordinates), 1-6 passes alternating axes, one instance per pass given 1-3 successive "
-          "goals (instance reuse) of node displacements with weight 1 or 10000; solve() is repeated until it reports no topology event and the state is judged after EVERY solve() return. "
+          "goals (instance reuse) of node displacements with weight 1 or 10000; solve() is repeated until it reports no topology event and the state is judged after EVERY solve() return; "
+          "in 40% of the cases 1-2 nodes are resized (0.5-2x per axis, about the centre or the min corner) with topology::applyResizes() after one of the passes and the state is judged again. "
           "non-trivial = the number of points of some edge path changed during the run (a bend was created or removed)"),
     workloads=[dict(harness="c13_topology", mode="pipeline", quick=6000, thorough=400000, watchdog=120, san_thorough=3000),
                dict(harness="c13_topology", mode="direct", flavour="rel", quick=100000, thorough=1500000, watchdog=60)],
     min_nontrivial=dict(quick=8000, thorough=150000),
     max_inconclusive=0.08,
-    require_obs=["iterations_monitored", "edge_states_checked", "bends_checked", "side_signatures_checked", "cases_where_bends_were_created_or_removed", "solve_calls_monitored"],
+    require_obs=["iterations_monitored", "edge_states_checked", "bends_checked", "side_signatures_checked", "cases_where_bends_were_created_or_removed", "solve_calls_monitored", "resizes_applied"],
     assumptions=["interior = rectangle shrunk by 1e-6 (paths legitimately run along node borders)",
                  "side signature: parity of a ray from each foreign node centre against the closed curve path + vertical rays at both path ends; compared between consecutive iterations and judged only when neither path end passed the node's x in that step"],
 )
